@@ -109,6 +109,12 @@ func GenGenesis(t *rapid.T, prof *Profile) GenesisSpec {
 			return map[string]interface{}{"fee": coinJSON{DenomStake, "1"}}
 		case 3:
 			return map[string]interface{}{"fee": coinJSON{DenomRegen, "5000000"}}
+		case 6:
+			// a hand-written amount: genesis JSON reads integers with Go's base-prefix syntax (0x.., 0o.., 0b.., digit
+			// separators, a leading zero = octal), and the keeper reads the stored string the same way
+			sp := []string{"0x1312D00", "20_000_000", "0o17", "0b1", "017", "0X10"}[draw(label+".spelled", 6)]
+			g.Notes = append(g.Notes, label+"=spelled:"+sp)
+			return map[string]interface{}{"fee": coinJSON{DenomStake, sp}}
 		case 5:
 			g.Notes = append(g.Notes, label+"=1e19ibc")
 			return map[string]interface{}{"fee": coinJSON{DenomIBC, "10000000000000000000"}}
